@@ -5,6 +5,7 @@ mod mini;
 mod lenient;
 mod tree;
 mod iface;
+mod limits;
 
 use std::collections::HashMap;
 use std::io::Cursor;
@@ -424,6 +425,21 @@ fn replay_text(what: &str, desc: &str, orig: &[u8]) -> String {
 	format!("property C02\nwhat: {what}\ninput: {desc}\nclass file (hex): {shown}\nsteps: duke::read_class(bytes) -> duke::write_class(tree) -> strict parse / compare\n")
 }
 
+/// how a tree is judged.  `oracle`: the tree lies inside the property's quantifier (read by duke, possibly renamed or edited
+/// into another description the reader could have produced) — the implementation-only oracle applies to whatever
+/// write_class answers: no panic, and an Ok output must pass the strict parser and read back to the facts of the tree.
+/// `dec`: the whole-class case asks the model for cclass_ok / cclass_np and decoder = facts.  `layout`: the method-by-method
+/// layout-level cases are printed (not for trees whose error is one of a count or length, which that model does not hold).
+/// `nopanic`: a panic of write_class is a violation of the property (the tree is one the reader produced or could produce).
+#[derive(Clone, Copy)]
+struct Mode { oracle: bool, dec: bool, layout: bool, nopanic: bool }
+const READ: Mode = Mode { oracle: true, dec: true, layout: true, nopanic: true };
+const OUTSIDE: Mode = Mode { oracle: false, dec: false, layout: true, nopanic: false };
+const SIZES: Mode = Mode { oracle: true, dec: true, layout: false, nopanic: true };
+/// a tree exactly as duke read it, but from a class file the strict parser would not accept as input either (a descriptor
+/// outside the grammar): the reader produced it, so writing must not panic; an Ok output is compared with the model only
+const READ_LENIENT: Mode = Mode { oracle: false, dec: false, layout: true, nopanic: true };
+
 struct Run<'a> { r: &'a mut Report, cases_left: usize, per_stream: HashMap<String, usize>, cap: usize, pool_left: usize, ldc_left: usize, rename_left: usize, bsm_left: usize, class_left: usize, class_per_stream: HashMap<String, usize>, class_cap: usize, pool_per_stream: HashMap<String, usize>, ldc_per_stream: HashMap<String, usize> }
 
 /// one class through everything.  `mutate` may modify the tree after reading (hypothesis-violating streams).
@@ -437,22 +453,23 @@ fn through(run: &mut Run, stream: &str, desc: &str, orig: &[u8], mutate: Option<
 		Err(_) => { run.r.count("reader_panicked"); return; }
 	};
 	if let Some(f) = mutate { f(&mut tree); }
-	through_tree(run, stream, desc, orig, &tree, mutate.is_none());
+	through_tree(run, stream, desc, orig, &tree, if mutate.is_none() { READ } else { OUTSIDE });
 	// the same class after a simple renaming of the class, its fields and its methods
 	if mutate.is_none() && run.rename_left > 0 {
 		run.rename_left -= 1;
 		let renamed = rename(&tree);
-		through_tree(run, &format!("{stream}+renamed"), &format!("{desc} (class, field and method names renamed)"), orig, &renamed, true);
+		through_tree(run, &format!("{stream}+renamed"), &format!("{desc} (class, field and method names renamed)"), orig, &renamed, READ);
 	}
 }
 
 /// a tree edited after reading in a way that keeps the hypotheses of the theorems (unique labels, well-formed
 /// switches): the full oracle applies
-fn through_edited(run: &mut Run, stream: &str, desc: &str, orig: &[u8], edit: &dyn Fn(&mut ClassFile)) {
+fn through_edited(run: &mut Run, stream: &str, desc: &str, orig: &[u8], edit: &dyn Fn(&mut ClassFile)) { through_mode(run, stream, desc, orig, edit, READ) }
+fn through_mode(run: &mut Run, stream: &str, desc: &str, orig: &[u8], edit: &dyn Fn(&mut ClassFile), mode: Mode) {
 	crumb(&replay_text(&format!("harness process died while reading or writing this class (stream {stream})"), desc, orig));
 	let mut tree = match impl_read(orig) { Ok(Ok(t)) => t, _ => { run.r.count("reader_rejected"); return; } };
 	edit(&mut tree);
-	through_tree(run, stream, desc, orig, &tree, true);
+	through_tree(run, stream, desc, orig, &tree, mode);
 }
 
 fn rename(t: &ClassFile) -> ClassFile {
@@ -471,24 +488,28 @@ fn rename(t: &ClassFile) -> ClassFile {
 	t
 }
 
-fn through_tree(run: &mut Run, stream: &str, desc: &str, orig: &[u8], tree: &ClassFile, from_reading: bool) {
+fn through_tree(run: &mut Run, stream: &str, desc: &str, orig: &[u8], tree: &ClassFile, mode: Mode) {
 	let t0 = std::time::Instant::now();
-	through_tree_(run, stream, desc, orig, tree, from_reading);
+	through_tree_(run, stream, desc, orig, tree, mode);
 	let dt = t0.elapsed().as_millis() as u64;
 	run.r.count_n(&format!("ms_{}", stream.split('+').next().unwrap_or(stream)), dt);
 }
-fn through_tree_(run: &mut Run, stream: &str, desc: &str, orig: &[u8], tree: &ClassFile, from_reading: bool) {
+fn through_tree_(run: &mut Run, stream: &str, desc: &str, orig: &[u8], tree: &ClassFile, mode: Mode) {
 	let r = &mut *run.r;
+	let from_reading = mode.dec;
 	let n_code = tree.methods.iter().filter(|m| m.code.is_some()).count();
 	let new = r.eval(&format!("{stream}:{desc}:{}", hex(&orig[..orig.len().min(64)])), n_code > 0);
 	let _ = new;
 	crumb(&replay_text(&format!("harness process died in duke::write_class (or in the probe write) of this tree (stream {stream})"), desc, orig));
 	let res = impl_write(tree);
 	let mut parsed: Option<raw::RawClass> = None;
-	if !from_reading {
+	if !mode.oracle {
 		// outside the property's quantifier: only the correspondence with the model is checked
 		match &res {
-			Err(p) => { r.count("mutated_write_panicked"); r.notes.push(format!("mutated tree ({desc}): write_class panicked: {p}")); }
+			Err(p) => {
+				r.count("mutated_write_panicked"); r.notes.push(format!("mutated tree ({desc}): write_class panicked: {p}"));
+				if mode.nopanic { r.violation(format!("duke::write_class panicked ({p}) on a tree the reader produced — writing must succeed or fail cleanly"), replay_text(&format!("write_class panicked: {p}"), desc, orig)); }
+			}
 			Ok(Err(_)) => r.count("mutated_write_err"),
 			Ok(Ok(out)) => { r.count("mutated_write_ok"); parsed = raw::parse(out).ok(); }
 		}
@@ -549,7 +570,7 @@ fn through_tree_(run: &mut Run, stream: &str, desc: &str, orig: &[u8], tree: &Cl
 	let mut plain_cache: Option<Result<Vec<Option<Vec<Vec<u8>>>>, String>> = None;
 	let class_stream = stream.split('+').next().unwrap_or(stream).to_string();
 	// the assembled boundary constructions differ only in their code (covered method by method below): a few of each
-	let class_cap = match class_stream.as_str() { "generated" | "corpus" | "frames-mutated" | "frames-restart" | "frames-delta" | "iface-args" | "iface-malformed" | "error-sites" => run.class_cap, "not-from-reading" | "shared-boundary" => run.class_cap / 8, _ => run.class_cap / 16 };
+	let class_cap = match class_stream.as_str() { "generated" | "corpus" | "frames-mutated" | "frames-restart" | "frames-delta" | "iface-args" | "iface-malformed" | "error-sites" | "count-limits" | "near-equal-strings" | "flag-bits" => run.class_cap, "not-from-reading" | "shared-boundary" => run.class_cap / 8, _ => run.class_cap / 16 };
 	if run.class_left > 0 && n_insns <= 3000 && *run.class_per_stream.get(&class_stream).unwrap_or(&0) < class_cap {
 		let pl = if n_code == 0 { Ok(vec![None; tree.methods.len()]) } else { plain_bytes(tree) };
 		let has_iface = tree.methods.iter().filter_map(|m| m.code.as_ref()).any(|c| c.instructions.iter().any(|e| matches!(e.instruction, Instruction::InvokeInterface(_))));
@@ -560,7 +581,7 @@ fn through_tree_(run: &mut Run, stream: &str, desc: &str, orig: &[u8], tree: &Cl
 				Ok((term, strings, uni)) => {
 					let ans = match &res { Ok(Ok(out)) => format!("(KOk {})", tree::pack(out)), Ok(Err(_)) => "KErr".into(), Err(_) => "KPanic".into() };
 					let total: usize = strings.iter().map(|b| b.len()).sum::<usize>() + match &res { Ok(Ok(out)) => out.len(), _ => 0 };
-					if total <= 140_000 {
+					if total <= 140_000 && term.len() <= 300_000 {
 						run.class_left -= 1;
 						*run.class_per_stream.entry(class_stream.clone()).or_insert(0) += 1;
 						r.count("class_cases"); r.count(match &res { Ok(Ok(_)) => "class_answer_ok", Ok(Err(_)) => "class_answer_err", Err(_) => "class_answer_panic" });
@@ -576,7 +597,7 @@ fn through_tree_(run: &mut Run, stream: &str, desc: &str, orig: &[u8], tree: &Cl
 		if n_code > 0 { plain_cache = Some(pl); }
 	}
 	// correspondence, method by method (names do not enter the layout-level model: not repeated for the renamed tree)
-	if n_code == 0 || run.cases_left == 0 || stream.ends_with("+renamed") { return; }
+	if n_code == 0 || run.cases_left == 0 || stream.ends_with("+renamed") || !mode.layout { return; }
 	if *run.per_stream.get(stream).unwrap_or(&0) >= run.cap { return; }
 	let cls: ClassIdx = parsed.as_ref().map(class_indices).unwrap_or_default();
 	let lcodes = match &res { Ok(Ok(out)) => lenient::codes(out), _ => None };
@@ -628,7 +649,7 @@ fn through_tree_(run: &mut Run, stream: &str, desc: &str, orig: &[u8], tree: &Cl
 		if let Some(bm) = rc.bootstrap_methods() {
 			let mut seen = std::collections::HashSet::new();
 			let keys: Vec<String> = bm.iter().map(|b| format!("{b:?}")).collect();
-			for k in &keys { if from_reading && !seen.insert(k.clone()) { r.violation(format!("BootstrapMethods table of the written class holds {k} twice"), replay_text("duplicate bootstrap method", desc, orig)); } }
+			for k in &keys { if mode.oracle && !seen.insert(k.clone()) { r.violation(format!("BootstrapMethods table of the written class holds {k} twice"), replay_text("duplicate bootstrap method", desc, orig)); } }
 			if run.bsm_left > 0 && !keys.is_empty() && keys.len() <= 200 { run.bsm_left -= 1; r.case("bootstrap", format!("CBsm [{}]", keys.iter().map(|k| gbytes(k.as_bytes())).collect::<Vec<_>>().join(";"))); }
 		}
 		let pps = run.pool_per_stream.entry(stream.to_string()).or_insert(0);
@@ -777,8 +798,8 @@ pub fn run(ctx: &Ctx) -> anyhow::Result<Report> {
 	let mut r = Report::new("C02", "C02.Run");
 	r.shard_size = 24;
 	let mut rng = Rng::new(ctx.seed);
-	r.rule = "class files (assembled boundary constructions, random near-boundary methods, javac corpus) -> duke::read_class -> duke::write_class; oracle: the independent strict parser must accept the output and every branch/switch arm/exception range/table pc must designate the image of the same tree instruction; correspondence: every method body abstracted to the layout level (plain instruction bytes taken from a probe write in which label-carrying instructions are nops) and the Coq model of write_code compared byte for byte with the written code array and tables. Whole classes additionally as terms of the whole-class model (byte-for-byte, decoder = facts). Streams iface-args / iface-malformed: one invokeinterface per class with a generated descriptor (inside the JVMS grammar incl. multi-byte and supplementary characters in class names, arrays of long/double, 252..257 argument slots; outside the grammar: truncated, unbalanced, non-ASCII where a type is expected, unpaired surrogates) — oracle: count = 1 + slots of the harness' own reference, more than 255 is a clean error. Stream frames-delta: every frame shape at offset deltas 0, 62, 63, 64, 129. Non-trivial = the class has at least one method with code; distinct by stream, description and class prefix.".into();
-	let mut run = Run { r: &mut r, cases_left: if ctx.thorough { 9000 } else { 1100 }, per_stream: HashMap::new(), cap: if ctx.thorough { 1500 } else { 230 }, pool_left: if ctx.thorough { 300 } else { 60 }, ldc_left: if ctx.thorough { 600 } else { 120 }, rename_left: if ctx.thorough { 4000 } else { 400 }, bsm_left: if ctx.thorough { 300 } else { 60 }, class_left: if ctx.thorough { 3600 } else { 730 }, class_per_stream: HashMap::new(), class_cap: if ctx.thorough { 1300 } else { 200 }, pool_per_stream: HashMap::new(), ldc_per_stream: HashMap::new() };
+	r.rule = "class files (assembled boundary constructions, random near-boundary methods, javac corpus) -> duke::read_class -> duke::write_class; oracle: the independent strict parser must accept the output and every branch/switch arm/exception range/table pc must designate the image of the same tree instruction; correspondence: every method body abstracted to the layout level (plain instruction bytes taken from a probe write in which label-carrying instructions are nops) and the Coq model of write_code compared byte for byte with the written code array and tables. Whole classes additionally as terms of the whole-class model (byte-for-byte, decoder = facts). Streams iface-args / iface-malformed: one invokeinterface per class with a generated descriptor (inside the JVMS grammar incl. multi-byte and supplementary characters in class names, arrays of long/double, 252..257 argument slots; outside the grammar: truncated, unbalanced, non-ASCII where a type is expected, unpaired surrogates) — oracle: count = 1 + slots of the harness' own reference, more than 255 is a clean error. Stream frames-delta: every frame shape at offset deltas 0, 62, 63, 64, 129. Streams at the limits of the count and length fields, every tree judged by the implementation-only oracle as well (an Ok answer must pass the strict parser and read back to the facts of the tree; a panic is a violation): count-limits (reader-producible: two LineNumberTable / LocalVariableTable / LocalVariableTypeTable attributes in one Code attribute adding up to 65535, exactly 65536, 65537 entries), error-sites (edited trees: 14 u16 count sites at 65535 / 65536, MethodParameters at 255 / 256, Utf8 lengths of 65535..65537 bytes in modified UTF-8 reached with 1-, 2- (NUL, U+00E9), 3- and 6-byte characters as source file, class and field name, the constant pool at constant_pool_count 65535 and one beyond with int fields and with a long in the last two slots). Stream near-equal-strings: two fields and the source file named by strings that differ only in the value of an unpaired surrogate, surrogate against U+FFFD, NUL, letter case, trailing blank, composed / decomposed. Stream flag-bits: every single bit (and all bits) of class, field, method, inner-class and parameter flags. Lists of 16 or more equal elements are printed as rep n x. Non-trivial = the class has at least one method with code; distinct by stream, description and class prefix.".into();
+	let mut run = Run { r: &mut r, cases_left: if ctx.thorough { 9000 } else { 1100 }, per_stream: HashMap::new(), cap: if ctx.thorough { 1500 } else { 230 }, pool_left: if ctx.thorough { 300 } else { 60 }, ldc_left: if ctx.thorough { 600 } else { 120 }, rename_left: if ctx.thorough { 4000 } else { 400 }, bsm_left: if ctx.thorough { 300 } else { 60 }, class_left: if ctx.thorough { 3800 } else { 830 }, class_per_stream: HashMap::new(), class_cap: if ctx.thorough { 1300 } else { 200 }, pool_per_stream: HashMap::new(), ldc_per_stream: HashMap::new() };
 
 	let grow = 300usize; // fields: String constant lands beyond index 255 in the written pool
 	let one = |m: MiniMethod, nf: usize| MiniClass { n_fields: nf, methods: vec![m] };
@@ -869,7 +890,8 @@ pub fn run(ctx: &Ctx) -> anyhow::Result<Report> {
 			let b = iface::build(&d, 1);
 			let desc = format!("invokeinterface descriptor outside the grammar {name}: code points {:?}", d);
 			run.r.count(if iface::reference_slots(&d).is_some() { "iface_malformed_generator_inside_grammar" } else { "iface_malformed" });
-			through(&mut run, "iface-malformed", &desc, &b, Some(&ident));
+			let _ = &ident;
+			through_mode(&mut run, "iface-malformed", &desc, &b, &|_| {}, READ_LENIENT);
 		}
 	}
 	// 6. random near-boundary methods
@@ -900,27 +922,154 @@ pub fn run(ctx: &Ctx) -> anyhow::Result<Report> {
 		};
 		through(&mut run, "not-from-reading", &format!("mutated tree kind {kind} #{i}"), &b, Some(&f));
 	}
-	// 7b. trees that reading cannot produce, aimed at the error sites of the whole-class writer: a u8 count of 255 / 256
-	//     (MethodParameters), a string of 65535 / 65536 bytes (PoolWrite::write), a u16 count of 65535 / 65536 (thorough)
+	// 7b. descriptions at the limits of the count and length fields of the file format.  Every tree of this stream lies inside
+	//     the property's quantifier (a class as read, then edited into another description the reader could have produced, or
+	//     renamed): the implementation-only oracle judges whatever write_class answers — a count of exactly 2^16 (2^8) that is
+	//     written as 0 instead of being refused is a failing input of the property, not only a disagreement with the model.
+	//     Every u16 count site at 65535 / 65536, the u8 site at 255 / 256, Utf8 lengths of 65535 / 65536 / 65537 bytes in
+	//     modified UTF-8 reached with 1-, 2- (NUL and U+00E9), 3- and 6-byte characters.
 	{
+		use duke::tree::annotation::{Annotation, ElementValue, ElementValuePair, Object};
+		use duke::tree::class::{ClassName, InnerClass, InnerClassFlags, ObjClassName};
+		use duke::tree::field::FieldDescriptor;
 		use duke::tree::method::{MethodParameter, ParameterFlags};
-		let base = mini::build(&MiniClass { n_fields: 2, methods: vec![MiniMethod { items: vec![bytes(&[RET])], ..Default::default() }] });
+		use java_string::JavaString;
+		// reader-producible: several LineNumberTable / LocalVariableTable / LocalVariableTypeTable attributes in one Code
+		// attribute whose entries add up to 65535, exactly 65536, 65537
+		let splits: &[(&str, [usize; 2])] = &[("65535 = 32768 + 32767", [32768, 32767]), ("65536 = 32768 + 32768", [32768, 32768]), ("65536 = 65535 + 1", [65535, 1]), ("65537 = 32768 + 32769", [32768, 32769])];
+		for (what, sp) in splits {
+			for kind in 0..3usize {
+				if !ctx.thorough && kind == 2 && sp[0] == 65535 { continue; }
+				let (name, b) = match kind { 0 => ("LineNumberTable", limits::build(sp, &[], &[])), 1 => ("LocalVariableTable", limits::build(&[], sp, &[])), _ => ("LocalVariableTypeTable", limits::build(&[], &[], sp)) };
+				let desc = format!("class A, method m()V with code `nop; return`, Code attribute with two {name} attributes of {} and {} entries ({what}; harness/src/bin/c02/limits.rs build)", sp[0], sp[1]);
+				through_mode(&mut run, "count-limits", &desc, &b, &|_| {}, SIZES);
+			}
+		}
+		let b = limits::build(&[40000, 25535], &[30000, 35535], &[35535, 30000]);
+		through_mode(&mut run, "count-limits", "class A, method m()V, all three tables of 65535 entries in two attributes each", &b, &|_| {}, SIZES);
+		let base = mini::build(&MiniClass { n_fields: 2, methods: vec![MiniMethod { items: vec![bytes(&[0]), bytes(&[RET])], exc: vec![(0, 1, 1)], lines: vec![0], lvt: vec![(0, 2)], max_locals: 1 }] });
 		if let Ok(b) = base {
-			let mut kinds: Vec<(String, Box<dyn Fn(&mut ClassFile)>)> = vec![];
+			type Edit = Box<dyn Fn(&mut ClassFile)>;
+			let mut kinds: Vec<(String, Edit)> = vec![];
+			let cn = |s: &str| unsafe { ClassName::from_inner_unchecked(JavaString::from(s)) };
+			let fd = |s: &str| unsafe { FieldDescriptor::from_inner_unchecked(JavaString::from(s)) };
 			for n in [255usize, 256] {
 				kinds.push((format!("{n} method parameters"), Box::new(move |t: &mut ClassFile| { if let Some(m) = t.methods.get_mut(0) {
 					m.method_parameters = Some((0..n).map(|_| MethodParameter { name: None, flags: ParameterFlags::from(0u16) }).collect()); } })));
 			}
-			for n in [65535usize, 65536] {
-				kinds.push((format!("source file name of {n} bytes"), Box::new(move |t: &mut ClassFile| { t.source_file = Some(java_string::JavaString::from("s".repeat(n))); })));
-			}
-			if ctx.thorough {
-				for n in [65535usize, 65536] {
-					kinds.push((format!("{n} interfaces"), Box::new(move |t: &mut ClassFile| {
-						let name = t.name.clone(); t.interfaces = (0..n).map(|_| name.clone()).collect(); })));
+			// strings: (what, unit, bytes of the unit in modified UTF-8, ASCII padding)
+			let units: [(&str, &str, usize); 5] = [("ASCII letters", "s", 1), ("NUL characters (two bytes each in modified UTF-8)", "\0", 2), ("U+00E9", "\u{e9}", 2), ("U+4E2D", "\u{4e2d}", 3), ("U+1F600 (a surrogate pair, six bytes)", "\u{1F600}", 6)];
+			for (ui, (uname, unit, ub)) in units.iter().enumerate() {
+				for n in [65535usize, 65536, 65537] {
+					if !ctx.thorough && n == 65537 && ui > 0 { continue; }
+					let (k, pad) = (n / ub, n % ub);
+					let text = format!("{}{}", unit.repeat(k), "a".repeat(pad));
+					let t1 = text.clone();
+					kinds.push((format!("source file name of {n} bytes in modified UTF-8: {k} x {uname} and {pad} x 'a'"), Box::new(move |t: &mut ClassFile| { t.source_file = Some(JavaString::from(t1.clone())); })));
+					if ui == 0 || ui == 1 || ctx.thorough {
+						let t2 = text.clone();
+						kinds.push((format!("class renamed to a name of {n} bytes in modified UTF-8: {k} x {uname} and {pad} x 'a'"), Box::new(move |t: &mut ClassFile| { t.name = unsafe { ObjClassName::from_inner_unchecked(JavaString::from(t2.clone())) }; })));
+					}
+					if ui == 0 {
+						let t3 = text.clone();
+						kinds.push((format!("first field renamed to a name of {n} bytes"), Box::new(move |t: &mut ClassFile| { if let Some(f) = t.fields.get_mut(0) { f.name = unsafe { duke::tree::field::FieldName::from_inner_unchecked(JavaString::from(t3.clone())) }; } })));
+					}
 				}
 			}
-			for (what, f) in &kinds { through(&mut run, "error-sites", &format!("mutated tree: {what}"), &b, Some(f.as_ref())); }
+			for n in [65535usize, 65536] {
+				kinds.push((format!("{n} interfaces"), Box::new(move |t: &mut ClassFile| { let name = t.name.clone(); t.interfaces = (0..n).map(|_| name.clone()).collect(); })));
+				kinds.push((format!("{n} fields (copies of the first)"), Box::new(move |t: &mut ClassFile| { let f = t.fields[0].clone(); t.fields = (0..n).map(|_| f.clone()).collect(); })));
+				kinds.push((format!("{n} methods (abstract copies of the first without its code)"), Box::new(move |t: &mut ClassFile| { let mut m = t.methods[0].clone(); m.code = None; m.access.is_static = false; m.access.is_abstract = true; t.methods = (0..n).map(|_| m.clone()).collect(); })));
+				kinds.push((format!("{n} inner classes"), Box::new(move |t: &mut ClassFile| { t.inner_classes = Some((0..n).map(|_| InnerClass { inner_class: cn("A$B"), outer_class: Some(cn("A")), inner_name: Some(JavaString::from("B")), flags: InnerClassFlags::from(1u16) }).collect()); })));
+				kinds.push((format!("{n} nest members"), Box::new(move |t: &mut ClassFile| { t.nest_members = Some((0..n).map(|_| cn("A$B")).collect()); })));
+				kinds.push((format!("{n} permitted subclasses"), Box::new(move |t: &mut ClassFile| { t.permitted_subclasses = Some((0..n).map(|_| cn("B")).collect()); })));
+				kinds.push((format!("{n} declared exceptions on the method"), Box::new(move |t: &mut ClassFile| { t.methods[0].exceptions = Some((0..n).map(|_| cn("E")).collect()); })));
+				kinds.push((format!("{n} line numbers (copies of the one of the method)"), Box::new(move |t: &mut ClassFile| { if let Some(c) = t.methods[0].code.as_mut() { if let Some(e) = c.line_numbers.as_ref().and_then(|v| v.first().cloned()) { c.line_numbers = Some((0..n).map(|_| (e.0, 7u16)).collect()); } } })));
+				kinds.push((format!("{n} local variables (copies of the one of the method)"), Box::new(move |t: &mut ClassFile| { if let Some(c) = t.methods[0].code.as_mut() { if let Some(e) = c.local_variables.as_ref().and_then(|v| v.first().cloned()) { c.local_variables = Some((0..n).map(|_| e.clone()).collect()); } } })));
+				kinds.push((format!("{n} exception table entries (copies of the one of the method)"), Box::new(move |t: &mut ClassFile| { if let Some(c) = t.methods[0].code.as_mut() { if let Some(e) = c.exception_table.first().cloned() { c.exception_table = (0..n).map(|_| e.clone()).collect(); } } })));
+				kinds.push((format!("{n} runtime-visible annotations on the class"), Box::new(move |t: &mut ClassFile| { t.runtime_visible_annotations = (0..n).map(|_| Annotation::new(fd("LN;"))).collect(); })));
+				kinds.push((format!("one runtime-invisible annotation with {n} element-value pairs on the first field"), Box::new(move |t: &mut ClassFile| {
+					let mut a = Annotation::new(fd("LN;")); a.element_value_pairs = (0..n).map(|_| ElementValuePair { name: JavaString::from("v"), value: ElementValue::Object(Object::Integer(7)) }).collect();
+					t.fields[0].runtime_invisible_annotations = vec![a]; })));
+				kinds.push((format!("annotation default that is an array of {n} values"), Box::new(move |t: &mut ClassFile| { t.methods[0].annotation_default = Some(ElementValue::ArrayType((0..n).map(|_| ElementValue::Object(Object::Boolean(true))).collect())); })));
+			}
+			// the constant pool at its limit: a class without methods whose fields f0.. fill the pool (constant_pool_count = 6 + n
+			// with plain fields; = 10 + n when the last field has type J and a long ConstantValue, whose two slots come last): the last
+			// counts that fit and the first that do not
+			for (with_long, edge) in [(false, 65529usize), (true, 65525)] {
+				for n in (edge - 1)..=(edge + 2) {
+					if !ctx.thorough && n == edge - 1 { continue; }
+					kinds.push((format!("no methods, {n} fields f0.. of type I{} (constant_pool_count would be {})", if with_long { ", the last one of type J with ConstantValue 5" } else { "" }, if with_long { 10 + n } else { 6 + n }),
+						Box::new(move |t: &mut ClassFile| {
+							t.methods.clear();
+							let f = t.fields[0].clone();
+							t.fields = (0..n).map(|i| { let mut g = f.clone(); g.name = unsafe { duke::tree::field::FieldName::from_inner_unchecked(JavaString::from(format!("f{i}"))) }; g }).collect();
+							if with_long { if let Some(l) = t.fields.last_mut() { l.descriptor = fd("J"); l.constant_value = Some(duke::tree::field::ConstantValue::Long(5)); } }
+						})));
+				}
+			}
+			for (what, f) in &kinds { through_mode(&mut run, "error-sites", &format!("edited tree: {what}"), &b, f.as_ref(), SIZES); }
+		}
+	}
+	// 7c. near-equal strings: the two fields of a class renamed to names that a normalising or lossy comparison would call
+	//     equal (the writer's pool finds a string that is already there by equality of the JavaStr) — unpaired surrogates that
+	//     differ only in their value, a surrogate against U+FFFD, NUL, letter case, trailing blank, composed / decomposed
+	{
+		use duke::tree::field::FieldName;
+		if let Ok(b) = mini::build(&MiniClass { n_fields: 2, methods: vec![MiniMethod { items: vec![bytes(&[RET])], ..Default::default() }] }) {
+			let pairs: Vec<(&str, Vec<u32>, Vec<u32>)> = vec![
+				("two high surrogates", vec![97, 0xD800], vec![97, 0xD801]),
+				("two low surrogates", vec![0xDC00, 97], vec![0xDFFF, 97]),
+				("a high against a low surrogate", vec![97, 0xD83D, 98], vec![97, 0xDE00, 98]),
+				("an unpaired surrogate against U+FFFD", vec![97, 0xD800], vec![97, 0xFFFD]),
+				("a supplementary character against its high surrogate alone", vec![0x1F600], vec![0xD83D]),
+				("NUL at the end", vec![97, 0], vec![97]),
+				("NUL against the two bytes C0 80 read as characters", vec![0], vec![0xC0, 0x80]),
+				("letter case", vec![97, 98], vec![97, 66]),
+				("trailing blank", vec![97], vec![97, 32]),
+				("composed against decomposed", vec![0xE9], vec![101, 0x301]),
+				("Kelvin sign against K", vec![0x212A], vec![75]),
+			];
+			for (what, x, y) in pairs {
+				for swap in [false, true] {
+					let (x, y) = if swap { (y.clone(), x.clone()) } else { (x.clone(), y.clone()) };
+					let desc = format!("fields renamed to code points {x:?} and {y:?} ({what}); source file name = the second");
+					let f = move |t: &mut ClassFile| {
+						t.fields[0].name = unsafe { FieldName::from_inner_unchecked(JStr::from_code_points(&x).to_java()) };
+						t.fields[1].name = unsafe { FieldName::from_inner_unchecked(JStr::from_code_points(&y).to_java()) };
+						t.source_file = Some(JStr::from_code_points(&y).to_java());
+					};
+					through_edited(&mut run, "near-equal-strings", &desc, &b, &f);
+				}
+			}
+		}
+	}
+	// 7d. every bit of every flag word on its own: the writer turns the flag structs of the tree into u16 with duke's
+	//     `From<…> for u16`; the harness reads the tree's flags with its own table (facts_duke) and the written ones from the bytes
+	{
+		use duke::tree::class::{ClassAccess, ClassName, InnerClass, InnerClassFlags};
+		use duke::tree::field::{FieldAccess, FieldName};
+		use duke::tree::method::{MethodAccess, MethodName, MethodParameter, ParameterFlags};
+		use java_string::JavaString;
+		if let Ok(b) = mini::build(&MiniClass { n_fields: 1, methods: vec![MiniMethod { items: vec![bytes(&[RET])], ..Default::default() }] }) {
+			let cn = |s: &str| unsafe { ClassName::from_inner_unchecked(JavaString::from(s)) };
+			let members = move |t: &mut ClassFile| {
+				t.inner_classes = Some((0..17u32).map(|k| InnerClass { inner_class: cn(&format!("A$I{k}")), outer_class: Some(cn("A")), inner_name: Some(JavaString::from(format!("I{k}"))),
+					flags: InnerClassFlags::from(if k == 16 { 0xffffu16 } else { 1u16 << k }) }).collect());
+				let f = t.fields[0].clone();
+				t.fields = (0..17u32).map(|k| { let mut g = f.clone(); g.name = unsafe { FieldName::from_inner_unchecked(JavaString::from(format!("f{k}"))) };
+					g.access = FieldAccess::from(if k == 16 { 0xffffu16 } else { 1u16 << k }); g }).collect();
+				let mut m = t.methods[0].clone(); m.code = None;
+				m.method_parameters = Some((0..17u32).map(|k| MethodParameter { name: None, flags: ParameterFlags::from(if k == 16 { 0xffffu16 } else { 1u16 << k }) }).collect());
+				let first = t.methods[0].clone();
+				t.methods = std::iter::once(first).chain((0..17u32).map(|k| { let mut g = m.clone(); g.name = unsafe { MethodName::from_inner_unchecked(JavaString::from(format!("m{k}"))) };
+					g.access = MethodAccess::from((if k == 16 { 0xffffu16 } else { 1u16 << k }) | 0x0400); g })).collect();
+			};
+			through_edited(&mut run, "flag-bits", "one inner class, one field, one abstract method and one method parameter per single flag bit 0x0001 .. 0x8000 (and one with all bits)", &b, &members);
+			for k in 0..17u32 {
+				let bits = if k == 16 { 0xffffu16 } else { 1u16 << k };
+				through_edited(&mut run, "flag-bits", &format!("class access flags read from {bits:#06x}"), &b, &move |t: &mut ClassFile| { t.access = ClassAccess::from(bits); });
+			}
 		}
 	}
 	// 8. classes generated by the shared class-file generator (every attribute kind, every constant
